@@ -109,7 +109,7 @@ def run(ctx, rep):
     # what the lookup rules take for granted about the code they call: words / headers / symbols decode per the ABI (C02), tables index
     # and iterate coherently (C09), and get_raw returns the NUL-terminated string at the offset (C15)
     from ._common import premise
-    premise(ctx, rep, "C02", "hash header, table words and symbols decode per the ABI", rules={"decode", "decode-reads", "decode-size", "decode-errors"}, where="src/hash.rs, src/symbol.rs")
+    premise(ctx, rep, "C02", "hash header, table words and symbols decode per the ABI", rules={"decode", "decode-reads", "decode-size", "decode-errors", "premise"}, where="src/hash.rs, src/symbol.rs")
     premise(ctx, rep, "C09", "ParsingTable len / get / is_empty are coherent", rules={"table", "iterator", "entry-advance"}, where="src/parse.rs")
     premise(ctx, rep, "C15", "get_raw returns the string at the offset", rules={"strtab"}, where="src/string_table.rs")
     rep.trusted_base += ["C02 (header / u32 table decoding), C09 (table get), C15 (get_raw), C16 (the walk terminates)", "slice equality in core"]
